@@ -1340,8 +1340,9 @@ impl<'a, S: Suite> W<'a, S> {
         let gpk = self.gpk;
         let v1 = guard_c19(self.out, &eng, "call.frost.verify", || crate::util::hex(se), || S::gpk_verify(gpk, sig, msg)).unwrap_or(false);
         let v2 = guard_c19(self.out, &eng, "call.frost.verify_esig", || crate::util::hex(se), || S::gpk_verify_esig(gpk, se, msg)).unwrap_or(false);
-        let v3 = S::indep_verify(&self.gpk_enc, se, msg);
-        let v4 = S::plain_verify(&self.gpk_enc, se, msg);
+        let gpk_enc = self.gpk_enc.clone();
+        let v3 = guard_c19(self.out, &eng, "call.frost.independent_verifier", || crate::util::hex(se), || S::indep_verify(&gpk_enc, se, msg)).unwrap_or(false);
+        let v4 = guard_c19(self.out, &eng, "call.rfc8032.plain_verify", || crate::util::hex(se), || S::plain_verify(&gpk_enc, se, msg)).unwrap_or(Some(false));
         if v4.is_some() {
             self.out.probe("probe.frost.rfc8032_plain_verifier_consulted");
         }
@@ -1380,8 +1381,15 @@ impl<'a, S: Suite> W<'a, S> {
             Some(v) => v,
             None => return,
         };
-        let vi = S::indep_verify(&self.gpk_enc, &m.a, &m.b);
-        let vp = S::plain_verify(&self.gpk_enc, &m.a, &m.b);
+        let gpk_enc = self.gpk_enc.clone();
+        let vi = match guard_c19(self.out, &eng, "call.frost.independent_verifier", || crate::util::hex(&m.a), || S::indep_verify(&gpk_enc, &m.a, &m.b)) {
+            Some(x) => x,
+            None => return,
+        };
+        let vp = match guard_c19(self.out, &eng, "call.rfc8032.plain_verify", || crate::util::hex(&m.a), || S::plain_verify(&gpk_enc, &m.a, &m.b)) {
+            Some(x) => x,
+            None => return,
+        };
         self.out.ev(format_args!("rely s{} verify_esig={} clean={}", m.sess, v, clean));
         if clean {
             if !(v && vi && vp.unwrap_or(true)) {
